@@ -558,14 +558,14 @@ func (h *simHost) stop() {
 
 var _ host.Host = (*simHost)(nil)
 
-func (h *simHost) ID() peer.ID                     { return h.id }
-func (h *simHost) Peerstore() peerstore.Peerstore  { return h.ps }
-func (h *simHost) Addrs() []ma.Multiaddr           { return []ma.Multiaddr{h.addr} }
-func (h *simHost) Network() network.Network        { return h.nw }
-func (h *simHost) Mux() protocol.Switch            { return nil }
+func (h *simHost) ID() peer.ID                      { return h.id }
+func (h *simHost) Peerstore() peerstore.Peerstore   { return h.ps }
+func (h *simHost) Addrs() []ma.Multiaddr            { return []ma.Multiaddr{h.addr} }
+func (h *simHost) Network() network.Network         { return h.nw }
+func (h *simHost) Mux() protocol.Switch             { return nil }
 func (h *simHost) ConnManager() connmgr.ConnManager { return h.cm }
-func (h *simHost) EventBus() event.Bus             { return h.bus }
-func (h *simHost) Close() error                    { return nil }
+func (h *simHost) EventBus() event.Bus              { return h.bus }
+func (h *simHost) Close() error                     { return nil }
 
 func (h *simHost) Connect(ctx context.Context, pi peer.AddrInfo) error {
 	h.mu.Lock()
